@@ -222,3 +222,182 @@ Proof.
     xfinish H E3 C3.
   - exfalso. unfold xpush, push_action in H. rewrite f_redo_leaf in H. cbn [xop_redo] in H. rewrite Ef in H. discriminate.
 Qed.
+
+(* ================================================================================================================
+   stage 2: stamp down (layer document), paste, merge down, anchor *)
+Local Notation bsound_edit := (sound_edit op_undo op_redo eqv).
+
+Lemma in_cells_xy w h x y : In (x, y) (cells_xy w h) <-> 0 <= x < w /\ 0 <= y < h.
+Proof.
+  unfold cells_xy. rewrite in_flat_map. split.
+  - intros (x0 & Hx & H). apply in_map_iff in H. destruct H as (y0 & E & Hy). injection E as <- <-.
+    apply in_zrange in Hx. apply in_zrange in Hy. auto.
+  - intros [Hx Hy]. exists x. split; [apply in_zrange; exact Hx|]. apply in_map_iff. exists y. split; [reflexivity|apply in_zrange; exact Hy].
+Qed.
+
+Lemma api_stamp_layer_down_sound : bsound_edit api_stamp_layer_down.
+Proof.
+  intros e e' H. unfold api_stamp_layer_down, guarded in H.
+  eapply with_guard_chain; eauto using eqv_refl, eqv_sym, eqv_trans.
+  intros e1 e2 Hb. cbv beta in Hb.
+  destruct (get_current_layer (cur e1)) as [i| |]; cbn [bind] in Hb; try discriminate.
+  destruct (nth_error (layers (cur e1)) i) as [L|]; [|discriminate].
+  destruct i as [|j]; [discriminate|].
+  destruct (nth_error (layers (cur e1)) j) as [Bs|] eqn:Hn; [|discriminate].
+  set (ax := l_ox L + l_ox Bs) in *. set (ay := l_oy L + l_oy Bs) in *.
+  destruct (from_layer Bs (ax, ay, l_w L, l_h L)) as [old| |] eqn:Eo; cbn [bind] in Hb; try discriminate.
+  set (B' := fold_left _ _ Bs) in Hb.
+  destruct (from_layer B' (ax, ay, l_w L, l_h L)) as [new| |] eqn:En; cbn [bind] in Hb; try discriminate.
+  injection Hb as <-.
+  assert (Hd : differs Bs B' (ax, ay, l_w L, l_h L)).
+  { unfold B'. apply fold_left_differs; [apply differs_refl|]. intros L1 [x y] Hin HL1. apply in_cells_xy in Hin.
+    destruct (cell_visible _); [|exact HL1]. apply set_char_step; [exact HL1|]. apply in_cells_intro; lia. }
+  eapply plain_sound; [apply (stable_lclosed _ change_stable)|].
+  exists j, ax, ay, old, new, Bs, B'. split; [reflexivity|]. split; [exact Hn|]. split; [apply eqv_refl|].
+  split; [eapply frame_undo; eauto|eapply frame_redo; eauto].
+Qed.
+
+Lemma xeqv_sel_none s : xeqv (with_xb s (with_sel (xb s) None)) s.
+Proof. split; [exact (eqv_with_sel (xb s) None)|exact (rest_eq_refl s)]. Qed.
+
+Lemma x_paste_clipboard_data_sound L e e' : x_paste_clipboard_data L e = Ok e' -> xedit_chain e e'.
+Proof.
+  intro H. unfold x_paste_clipboard_data in H.
+  destruct (get_current_layer (xb (cur e))) as [c| |] eqn:Ec; cbn [bind] in H; try discriminate.
+  destruct (get_current_layer_ok _ _ Ec) as (Lc & Hc).
+  assert (Hlt : (c < length (xlayers (cur e)))%nat) by (apply nth_error_Some; unfold xlayers; congruence).
+  destruct (xpush_sound _ _ e (XPaste c (Some L)) (with_xlayers (cur e) (insert_at (S c) L (xlayers (cur e)))) paste_closed) as (e1 & E1 & C1 & _).
+  { exists c, L. split; [reflexivity|]. split; [lia|apply xeqv_refl]. }
+  rewrite E1 in H. cbn [bind] in H. injection H as <-. eapply xchain_trans; [exact C1|]. apply xupd_chain. intro s. apply xeqv_sel_none.
+Qed.
+
+Lemma xeqv_clamp s : xeqv (with_xb s (clamp_cur (xb s))) s.
+Proof. split; [exact (eqv_clamp_cur (xb s))|exact (rest_eq_refl s)]. Qed.
+
+Lemma x_merge_layer_down_sound n e e' : x_merge_layer_down n e = Ok e' -> xedit_chain e e'.
+Proof.
+  intro H. unfold x_merge_layer_down in H. destruct n as [|j]; [discriminate|].
+  destruct (length (xlayers (cur e)) <=? S j)%nat eqn:El; [discriminate|]. apply Nat.leb_gt in El.
+  destruct (get_cur_layer (xb (cur e))) as [[ic Cl]|]; [|discriminate].
+  destruct (l_role Cl =? 2)%N; [injection H as <-; apply xchain_refl|].
+  destruct (nth_error (xlayers (cur e)) j) as [Bs|]; [|discriminate].
+  destruct (nth_error (xlayers (cur e)) (S j)) as [C|]; [|discriminate].
+  destruct (merge_layers Bs C) as [[M|]| |]; cbn [bind] in H; try discriminate; [|injection H as <-; apply xchain_refl].
+  destruct (xpush_sound _ _ e (XMergeDown (S j) (Some M) None) (with_xlayers (cur e) (merged_list j M (xlayers (cur e)))) merge_closed) as (e1 & E1 & C1 & _).
+  { exists j, None, M. split; [reflexivity|]. split; [exact El|apply xeqv_refl]. }
+  rewrite E1 in H. cbn [bind] in H. injection H as <-. eapply xchain_trans; [exact C1|]. apply xupd_chain. intro s. apply xeqv_clamp.
+Qed.
+
+Lemma x_anchor_layer_sound e e' : x_anchor_layer e = Ok e' -> xedit_chain e e'.
+Proof.
+  intro H. unfold x_anchor_layer in H. destruct (get_cur_layer (xb (cur e))) as [[i Cl]|]; [|discriminate].
+  destruct (l_role Cl =? 1)%N; [|injection H as <-; apply xchain_refl].
+  eapply xguarded_chain; [|exact H]. intros e2 Hb. cbv beta in Hb.
+  destruct (get_current_layer _) as [i1| |]; cbn [bind] in Hb; try discriminate.
+  eapply x_merge_layer_down_sound. exact Hb.
+Qed.
+
+(* ================================================================================================================
+   stage 3: crop / resize with layers *)
+Lemma x_crop_rect_sound r e e' : ~ known_sauce_size (cur e) -> x_crop_rect r e = Ok e' -> xedit_chain e e'.
+Proof.
+  intros HK H. unfold x_crop_rect in H. destruct r as [[[rx ry] rw] rh]. injection H as <-.
+  assert (Hs : sauce_in_sync (cur e)) by (destruct (sauce_in_sync_dec (cur e)); [assumption|contradiction]).
+  eapply xplain_sound; [apply crop_closed|].
+  exists rw, rh, (xlayers (cur e)), (crop_layers (rx, ry, rw, rh) (xlayers (cur e))).
+  split; [reflexivity|]. split; [apply Forall2_leqv_refl|]. split; [exact Hs|apply xeqv_refl].
+Qed.
+
+Lemma x_crop_sound e e' : ~ known_sauce_size (cur e) -> x_crop e = Ok e' -> xedit_chain e e'.
+Proof.
+  intros HK H. unfold x_crop in H. destruct (sel (xb (cur e))); [eapply x_crop_rect_sound; eauto|injection H as <-; apply xchain_refl].
+Qed.
+
+Lemma x_resize_buffer_layers_sound w h e e' : ~ known_sauce_size (cur e) -> x_resize_buffer_layers w h e = Ok e' -> xedit_chain e e'.
+Proof.
+  intros HK H. unfold x_resize_buffer_layers in H.
+  assert (Hs : sauce_in_sync (cur e)) by (destruct (sauce_in_sync_dec (cur e)); [assumption|contradiction]).
+  destruct (crop_layers (0, 0, w, h) (xlayers (cur e))) as [|L0 lt]; [discriminate|]. injection H as <-.
+  eapply xplain_sound; [apply crop_closed|].
+  eexists w, h, (xlayers (cur e)), _. split; [reflexivity|]. split; [apply Forall2_leqv_refl|]. split; [exact Hs|apply xeqv_refl].
+Qed.
+
+(* ================================================================================================================
+   stage 4: the selection mask *)
+Lemma xnodoc_push (e : XE) o :
+  ((exists old new, o = XSwitchFontPage old new) \/ (exists old new, o = XSetMask old new) \/ (exists old sl, o = XAddToMask old sl) \/
+   (exists sl old new, o = XInverse sl old new) \/ (exists sl m, o = XSelectNothing sl m)) ->
+  exists e1, xpush o e = Ok e1 /\ xedit_chain e e1.
+Proof.
+  intro Ho. destruct (xpush_sound _ _ e o (cur e) (xstable_lclosed _ xnodoc_stable)) as (e1 & E1 & C1 & _).
+  { split; [exact Ho|apply xeqv_refl]. }
+  eauto.
+Qed.
+
+Lemma x_clear_selection_sound e e' : x_clear_selection e = Ok e' -> xedit_chain e e'.
+Proof.
+  intro H. unfold x_clear_selection in H. destruct (x_is_something_selected (cur e)); [|injection H as <-; apply xchain_refl].
+  destruct (xnodoc_push (xupd e (fun s => with_xb s (with_sel (xb s) None))) (XSelectNothing (sel (xb (cur e))) (x_mask (cur e)))) as (e1 & E1 & C1).
+  { right; right; right; right. eauto. }
+  rewrite E1 in H. injection H as <-. eapply xchain_trans; [|exact C1]. apply xupd_chain. intro s. apply xeqv_sel_none.
+Qed.
+
+Lemma x_add_selection_to_mask_sound e e' : x_add_selection_to_mask e = Ok e' -> xedit_chain e e'.
+Proof.
+  intro H. unfold x_add_selection_to_mask in H. destruct (sel (xb (cur e))) as [sl|]; [|injection H as <-; apply xchain_refl].
+  destruct (xnodoc_push e (XAddToMask (x_mask (cur e)) sl)) as (e1 & E1 & C1); [right; right; left; eauto|].
+  xfinish H E1 C1.
+Qed.
+
+Lemma x_inverse_selection_sound e e' : x_inverse_selection e = Ok e' -> xedit_chain e e'.
+Proof.
+  intro H. unfold x_inverse_selection in H. injection H as <-.
+  eapply xplain_sound; [apply (xstable_lclosed _ xnodoc_stable)|].
+  split; [right; right; right; left; eauto|]. apply xeqv_sym. apply xeqv_sel_mask.
+Qed.
+
+Lemma x_enumerate_selections_sound f e e' : x_enumerate_selections f e = Ok e' -> xedit_chain e e'.
+Proof.
+  intro H. unfold x_enumerate_selections in H. destruct (get_cur_layer (xb (cur e))) as [[i L]|]; [|injection H as <-; apply xchain_refl].
+  destruct (mask_eqb _ _); injection H as <-; [apply xchain_refl|].
+  eapply xplain_sound; [apply (xstable_lclosed _ xnodoc_stable)|].
+  split; [right; left; eauto|]. apply xeqv_sym. apply xeqv_with_mask.
+Qed.
+
+Lemma x_erase_selection_sound e e' : x_erase_selection e = Ok e' -> xedit_chain e e'.
+Proof.
+  intro H. unfold x_erase_selection in H. destruct (x_is_something_selected (cur e)); [|injection H as <-; apply xchain_refl].
+  eapply xguarded_chain; [|exact H]. clear H e'. set (e0 := mkEs (cur e) (ustk e) []). intros e2 Hb. cbv beta in Hb.
+  destruct (get_current_layer (xb (cur e0))) as [i| |] eqn:Ei; cbn [bind] in Hb; try discriminate.
+  destruct (nth_error (xlayers (cur e0)) i) as [L|] eqn:Hn; [|discriminate].
+  set (L' := fold_left _ (cells (l_w L) (l_h L)) L) in Hb.
+  assert (Hd : differs L L' (0, 0, l_w L, l_h L)).
+  { unfold L'. apply fold_left_differs; [apply differs_refl|]. intros L1 [x y] Hin HL1. apply in_cells_iff in Hin.
+    destruct (x_is_selected _ _ _); [|exact HL1]. apply set_char_step; [exact HL1|]. rewrite !Z.sub_0_r. exact Hin. }
+  eapply xchain_trans; [|apply x_clear_selection_sound; exact Hb].
+  eapply xplain_sound; [apply (leaf_lift _ _ (stable_lclosed _ change_stable))|].
+  eexists. split; [reflexivity|]. split; [|exact (rest_eq_refl (cur e0))].
+  cbn [xb with_xb]. exists i, 0, 0, (snap_of_layer L), (snap_of_layer L'), L, L'. split; [reflexivity|]. split; [exact Hn|]. split; [apply eqv_refl|].
+  split; [apply clone_undo; exact Hd|apply clone_redo; exact Hd].
+Qed.
+
+Lemma x_set_selection_sound sl e e' : x_set_selection sl e = Ok e' -> xedit_chain e e'.
+Proof. apply lift_edit_sound. apply api_set_selection_sound. Qed.
+
+Lemma x_line_op_sound r op : (forall e e', op e = Ok e' -> xedit_chain e e') -> forall e e', x_line_op r op e = Ok e' -> xedit_chain e e'.
+Proof.
+  intros Hop e e' H. unfold x_line_op in H. eapply xguarded_chain; [|exact H]. intros e2 Hb. cbv beta in Hb.
+  destruct (r (xb (cur e))) as [s| |]; cbn [bind] in Hb; try discriminate.
+  destruct (x_set_selection s _) as [e3| |] eqn:E3; cbn [bind] in Hb; try discriminate.
+  destruct (op e3) as [e4| |] eqn:E4; cbn [bind] in Hb; try discriminate.
+  eapply xchain_trans; [exact (x_set_selection_sound s _ _ E3)|].
+  eapply xchain_trans; [exact (Hop _ _ E4)|]. exact (x_clear_selection_sound _ _ Hb).
+Qed.
+
+Lemma x_line_erase_sound r e e' : x_line_erase r e = Ok e' -> xedit_chain e e'.
+Proof.
+  intro H. unfold x_line_erase in H. eapply xguarded_chain; [|exact H]. intros e2 Hb. cbv beta in Hb.
+  destruct (r (xb (cur e))) as [s| |]; cbn [bind] in Hb; try discriminate.
+  destruct (x_set_selection s _) as [e3| |] eqn:E3; cbn [bind] in Hb; try discriminate.
+  eapply xchain_trans; [exact (x_set_selection_sound s _ _ E3)|]. exact (x_erase_selection_sound _ _ Hb).
+Qed.
